@@ -134,6 +134,57 @@ func (e *Env) Watchdog(d time.Duration, describe func() map[string]any) (stop fu
 	return func() { close(done) }
 }
 
+// Progress is the "what is running now" record of an engine whose cases run inside a synctest bubble (where timers are
+// virtual): the engine calls Step before every operation; StallWatchdog, started OUTSIDE the bubble, fires when no Step has
+// happened for d of REAL time — the real code hangs (dead-lock, goroutines blocked on a lock the bubble cannot see) on the
+// recorded case, which becomes the failing input.
+type Progress struct {
+	mu   sync.Mutex
+	tick int64
+	ops  []string
+}
+
+func (p *Progress) Step(ops []string, next string) {
+	p.mu.Lock()
+	p.tick++
+	p.ops = append(append([]string{}, ops...), next)
+	p.mu.Unlock()
+}
+
+func (e *Env) StallWatchdog(d time.Duration, p *Progress, what string) (stop func()) {
+	done := make(chan struct{})
+	go func() {
+		last, since := int64(-1), time.Now()
+		for {
+			select {
+			case <-done:
+				return
+			case <-time.After(time.Second):
+			}
+			p.mu.Lock()
+			tick, ops := p.tick, append([]string{}, p.ops...)
+			p.mu.Unlock()
+			if tick != last {
+				last, since = tick, time.Now()
+				continue
+			}
+			if tick > 0 && time.Since(since) > d {
+				e.stopping.Store(true)
+				time.Sleep(300 * time.Millisecond)
+				e.mu.Lock()
+				e.Violations = append(e.Violations, map[string]any{"what": what, "ops": ops})
+				e.Dist["monitor_violation"]++
+				e.Dist["watchdog_fired"]++
+				e.mu.Unlock()
+				_ = e.finish()
+				fmt.Fprintln(os.Stderr, "watchdog: a case did not finish in real time; violation recorded, engine stopped")
+				os.Exit(0)
+			}
+		}
+	}()
+	return func() { close(done) }
+}
+
 // Emit writes one op line for the model driver and the implementation's observation for it.
 func (e *Env) Emit(op string, obs string) {
 	if strings.ContainsAny(op, "\n") || strings.ContainsAny(obs, "\n") {
